@@ -289,7 +289,7 @@ func TestVerifC06Transfer(t *testing.T) {
 		x.Mode = rapid.SampledFrom([]string{"scan", "paths"}).Draw(rt, "mode")
 		x.QUICVis = rapid.Bool().Draw(rt, "quicvis")
 		x.HashAlg = rapid.SampledFrom([]string{"", "crc32c", "xxhash64", "none"}).Draw(rt, "hash")
-		tm := c06Tamper{Kind: rapid.SampledFrom(c06Kinds).Draw(rt, "tamper"), File: rapid.IntRange(0, 5).Draw(rt, "tfile"), Pos: rapid.Float64Range(0, 1).Draw(rt, "tpos"),
+		tm := c06Tamper{Kind: rapid.SampledFrom(c06Kinds).Draw(rt, "tamper"), File: rapid.IntRange(0, 5).Draw(rt, "tfile"), Pos: frac(rt, "tpos"),
 			Bit: uint(rapid.IntRange(0, 7).Draw(rt, "tbit")), Delay: rapid.SampledFrom([]int{0, 0, 1, 5, 20}).Draw(rt, "hash_delay"), NewSize: rapid.IntRange(0, 3).Draw(rt, "tnew")}
 		dir := caseDir("c06")
 		defer os.RemoveAll(dir)
